@@ -9,6 +9,15 @@ package cache
 // results is the collision resistance of SHA-256 and is not proved.
 //@ pred mangled(key, instance) = hexsum(sapp(sapp(sempty(), strbytes(key), 0, len(key)), strbytes(instance), 0, len(instance)))
 
+// Names of the key spaces as they appear in lookup keys and backend object names (C15, C20).
+//@ pred kindName(k) = k == 0 ? "ac" : (k == 1 ? "cas" : "raw")
+//@ func (e EntryKind) String() string
+//@   serves C15 C20
+//@   ensures[C15,C20] name: result == kindName(e)
+//@ func (e EntryKind) DirName() string
+//@   serves C15 C20
+//@   ensures[C15,C20] name: result == (e == 0 ? "ac.v2" : (e == 1 ? "cas.v2" : "raw.v2"))
+
 //@ func TransformActionCacheKey(key, instance string, logger Logger) string
 //@   serves C15
 //@   requires logger != nil
